@@ -33,7 +33,7 @@ def main():
             diffs += sorted(os.path.join(os.path.abspath(d), f) for f in os.listdir(d) if f.endswith(".diff"))
         else:
             diffs.append(os.path.abspath(d))
-    nbad = 0
+    nbad = nviol = 0
     with concurrent.futures.ProcessPoolExecutor(max_workers=12) as ex:
         for diff, status, out in ex.map(one, diffs):
             if status != "ok":
@@ -41,6 +41,8 @@ def main():
                 continue
             if out:
                 nbad += 1
+                if any(rc == 1 for _p, rc, _b, _e in out):
+                    nviol += 1
             print("%s: %s" % (diff, "silent" if not out else "NOT SILENT"))
             for p, rc, bad, errs in out:
                 print("    %s rc=%d" % (p, rc))
@@ -48,7 +50,7 @@ def main():
                     print("       %s | %s | %s" % b)
                 for e in errs:
                     print("       ERROR %s" % e)
-    print("refactorings: %d, not silent: %d" % (len(diffs), nbad))
+    print("refactorings: %d, not silent: %d (of which reported as violation: %d)" % (len(diffs), nbad, nviol))
 
 
 if __name__ == "__main__":
